@@ -13,11 +13,11 @@ import typing
 import warnings
 from collections import defaultdict
 
-from .. import e2e, guard
+from .. import e2e, guard, realcall
 from ..common import Rng, hx, unhx
 from ..runner import Check
 from ..translate import graphql_tables
-from . import c17_bridge, c17_order
+from . import c17_bridge, c17_fields, c17_order
 
 NoneType = type(None)
 BUILTIN = {"Int": "int", "Float": "float", "String": "str", "Boolean": "bool", "ID": "str"}  # GraphQL spec §3.5
@@ -218,19 +218,27 @@ def campaign_object_like(ck: Check, n: int) -> None:
     camp = ck.campaign("Graphql.parseObjectLike vs GraphQLParser.parse_object_like (members, __typename member, bases)")
     t0 = time.time()
     rng = ck.rng.fork("object_like")
-    import graphql
-    from datamodel_code_generator.parser.graphql import build_graphql_schema
-
     cases = []
     for _ in range(n):
-        n_if = rng.below(3)
+        n_if = rng.below(4)
         ifs = [f"I{j}" for j in range(n_if)]
         if_fields = {i: [(f"f_{i.lower()}{k}", rand_gtype(rng, OUT_NAMES, 2)) for k in range(rng.range(1, 2))] for i in ifs}
         own = [(f"f_{chr(97 + k)}", rand_gtype(rng, OUT_NAMES, 2)) for k in range(rng.below(4))]
         kw = rng.choice(["type", "type", "interface", "input"])
         if kw == "input":
             ifs, own = [], [(nm, rand_gtype(rng, IN_NAMES, 2)) for nm, _ in own] or [("f_a", ("n", "Int"))]
-        fields = own + [f for i in ifs for f in if_fields[i]]
+        shared = []
+        if len(ifs) >= 2 and rng.chance(3, 4):
+            # the same field declared by several interfaces with different nullability; T declares the strongest
+            # type, and one interface (first / last / any / none) declares it exactly like T
+            for k in range(rng.range(1, 2)):
+                own_t = rand_gtype(rng, OUT_NAMES, 2)
+                exact = rng.choice([ifs[0], ifs[-1], rng.choice(ifs), None])
+                for i in rng.sample(ifs, rng.range(2, len(ifs))):
+                    if_fields[i].append((f"f_s{k}", own_t if i == exact else c17_fields.weaken(rng, own_t)))
+                shared.append((f"f_s{k}", own_t))
+        seen_names = {nm for nm, _ in shared}
+        fields = own + shared + [f for i in ifs for f in if_fields[i] if f[0] not in seen_names]
         if not fields:
             fields = [("f_a", ("n", "Int"))]
         fields = rng.shuffle(fields)
@@ -244,16 +252,25 @@ def campaign_object_like(ck: Check, n: int) -> None:
     reqs, metas = [], []
     for sdl, kw, fo in cases:
         # graphql-core is a parameter of the model: field order and interface order as it reports them
-        gobj = build_graphql_schema(sdl).type_map["T"]
+        schema = c17_fields._real_schema(ck, camp, sdl)  # noqa: SLF001
+        if schema is None:
+            reqs.append("gql.wf (n x)")
+            metas.append(None)
+            continue
+        gobj = schema.type_map["T"]
         gfields = [(nm, of_graphql(f.type)) for nm, f in gobj.fields.items()]
         gifs = [i.name for i in getattr(gobj, "interfaces", [])]
         reqs.append(
             f"gql.object {int(fo)} {hx('T')} (" + " ".join(f"({hx(a)} {gt_sx(b)})" for a, b in gfields) + ") ("
             + " ".join(hx(i) for i in gifs) + ")"
         )
-        metas.append((gfields, gifs))
+        clash = any(sum(nm in i.fields for i in getattr(gobj, "interfaces", ())) >= 2 for nm, _ in gfields)
+        metas.append((gfields, gifs, clash))
     replies = ck.driver.run(reqs)
-    for (sdl, kw, fo), rep, (gfields, gifs) in zip(cases, replies, metas):
+    for (sdl, kw, fo), rep, meta in zip(cases, replies, metas):
+        if meta is None:
+            continue
+        gfields, gifs, clash = meta
         camp.evaluations += 1
         camp.hit(f"kind:{kw}")
         camp.hit(f"interfaces:{len(gifs)}")
@@ -269,21 +286,51 @@ def campaign_object_like(ck: Check, n: int) -> None:
                 m_members.append(("field", unhx(mm[1]), mm[2] == "1", dt_of_sx(mm[3])))
             else:
                 m_members.append(("typename", unhx(mm[1])))
-        p = real_parser(sdl, force_optional_for_required_fields=fo)
-        r = result_named(p, "T")
-        i_members = []
-        for f in r.fields:
-            if f.alias == "__typename":
-                ok = f.name == "typename__" and f.required is False and f.default == f.data_type.literals[0] and len(f.data_type.literals) == 1
-                i_members.append(("typename", f.data_type.literals[0]) if ok else ("odd-typename", f.name, f.default))
-            else:
-                i_members.append(("field", f.name, bool(f.required), dump_dt(f.data_type)))
-        i_bases = [b.reference.name for b in r.base_classes if b.reference is not None]
+        camp.hit("field_declared_by_several_interfaces" if clash else "no_shared_interface_field")
+
+        def dump_class(r):
+            i_members = []
+            for f in r.fields:
+                if f.alias == "__typename":
+                    ok = f.name == "typename__" and f.required is False and f.default == f.data_type.literals[0] and len(f.data_type.literals) == 1
+                    i_members.append(("typename", f.data_type.literals[0]) if ok else ("odd-typename", f.name, f.default))
+                else:
+                    i_members.append(("field", f.name, bool(f.required), dump_dt(f.data_type)))
+            return [b.reference.name for b in r.base_classes if b.reference is not None], i_members
+
+        inp = {"sdl": sdl, "force_optional": fo}
+        p = r = None
+        with realcall.guard(ck, camp, "GraphQLParser(source=…, force_optional_for_required_fields=…).parse_raw()", inp):
+            p = real_parser(sdl, force_optional_for_required_fields=fo)
+            r = result_named(p, "T")
+        if r is None:
+            if p is not None:
+                ck.disagree(camp, inp, (m_bases, m_members), "no class T among the results")
+            continue
+        impl = None
+        with realcall.guard(ck, camp, "the DataModel parse_object_like builds (fields, base_classes)", inp):
+            impl = dump_class(r)
+        if impl is None:
+            continue
         camp.distinct.add(sdl)
-        if (m_bases, m_members) != (i_bases, i_members):
-            ck.disagree(camp, {"sdl": sdl, "force_optional": fo}, (m_bases, m_members), (i_bases, i_members))
-        elif len(camp.samples) < 2 and gifs:
-            camp.samples.append({"sdl": sdl, "bases": i_bases, "members": [m[:2] for m in i_members]})
+        if (m_bases, m_members) != impl:
+            ck.disagree(camp, inp, (m_bases, m_members), impl)
+            continue
+        if len(camp.samples) < 2 and gifs:
+            camp.samples.append({"sdl": sdl, "bases": impl[0], "members": [m[:2] for m in impl[1]]})
+        # parse_object_like itself, called directly on the parser's own graphql-core object
+        objs = realcall.resolve(ck, camp, p, "all_graphql_objects", "GraphQLParser.all_graphql_objects") or {}
+        fn = realcall.resolve(ck, camp, p, "parse_object_like", "GraphQLParser.parse_object_like")
+        if "T" in objs and fn is not None:
+            before = len(p.results)
+            ok, _ = c17_fields.direct(ck, camp, "GraphQLParser.parse_object_like(obj)", fn, objs["T"], _case=inp)
+            if ok:
+                camp.hit("direct_call")
+                got = None
+                with realcall.guard(ck, camp, "the DataModel parse_object_like builds (fields, base_classes)", inp):
+                    got = dump_class(p.results[-1]) if len(p.results) == before + 1 else ("results grew by", len(p.results) - before)
+                if got is not None and got != (m_bases, m_members):
+                    ck.disagree(camp, {**inp, "what": "parse_object_like called directly"}, (m_bases, m_members), got)
     camp.wall_s = time.time() - t0
 
 
@@ -523,17 +570,18 @@ def member_info(cls, kind: str) -> dict[str, dict]:
         from pydantic_core import PydanticUndefined
 
         for n, f in cls.model_fields.items():
-            out[n] = {"required": f.is_required(), "default": None if f.default is PydanticUndefined else f.default, "alias": f.alias,
+            d = f.default_factory() if f.default_factory is not None else (None if f.default is PydanticUndefined else f.default)
+            out[n] = {"required": f.is_required(), "default": d, "alias": f.alias,
                       "has_default": f.default is not PydanticUndefined or f.default_factory is not None}
     elif kind == "pydantic.BaseModel":
         for n, f in cls.__fields__.items():
-            out[n] = {"required": bool(f.required), "default": f.default, "alias": f.alias if f.has_alias else None,
-                      "has_default": not f.required}
+            out[n] = {"required": bool(f.required), "default": f.default_factory() if f.default_factory is not None else f.default,
+                      "alias": f.alias if f.has_alias else None, "has_default": not f.required}
     elif kind == "dataclasses.dataclass":
         for f in dataclasses.fields(cls):
             has = f.default is not dataclasses.MISSING or f.default_factory is not dataclasses.MISSING
-            out[f.name] = {"required": not has, "default": None if f.default is dataclasses.MISSING else f.default, "alias": None,
-                           "has_default": has}
+            d = f.default_factory() if f.default_factory is not dataclasses.MISSING else (None if f.default is dataclasses.MISSING else f.default)
+            out[f.name] = {"required": not has, "default": d, "alias": None, "has_default": has}
     else:  # TypedDict
         # under `from __future__ import annotations` __required_keys__ is unreliable (documented CPython
         # limitation); type checkers and pydantic read the NotRequired[...] qualifier of the evaluated hint
@@ -788,10 +836,31 @@ def _check_module(ck, camp, fail, schema, mod, code, kind, flags, scalar_map, se
             m = info[fname]
             want_required = nn and not fo
             if m["required"] != want_required:
-                return fail("required", f"{n}.{fname}: {f.type} → required={m['required']}, expected {want_required}", field_type=str(f.type))
+                extra = {}
+                if want_required and any(fname in i.fields and not graphql.is_non_null_type(i.fields[fname].type) for i in getattr(t, "interfaces", ())):
+                    # the type's own field is non-null while an interface it implements declares the field nullable
+                    # (so the interface's class gives the member the default None)
+                    extra["trigger"] = "overrides_nullable_member_of_an_interface"
+                return fail("required", f"{n}.{fname}: {f.type} → required={m['required']}, expected {want_required}", field_type=str(f.type), **extra)
             has_sdl_default = graphql.is_input_object_type(t) and f.default_value is not graphql.Undefined and f.default_value is not None
             if not want_required and kind != "typing.TypedDict" and not has_sdl_default and not (m["has_default"] and m["default"] is None):
                 return fail("default_not_none", f"{n}.{fname}: {f.type} → default {m['default']!r}, expected None", field_type=str(f.type))
+            if has_sdl_default:
+                camp.hit("input_default:" + c17_fields.value_class(c17_fields.canon(f.default_value)))
+            # the default value of an input field is the one graphql-core reports (type-strict: 0, 0.0 and False differ;
+            # an Enum member stands for its value); a required member shows none (a non-null field is required)
+            if not want_required and kind != "typing.TypedDict" and has_sdl_default:
+                want_c = c17_fields.canon(f.default_value)
+                have_c = c17_fields.canon(m["default"]) if m["has_default"] else None
+                if have_c != want_c:
+                    observed = (f"{n}.{fname}: {f.type} = {c17_fields.show_canon(want_c)} in the schema → the member "
+                                + ("has no default" if have_c is None else f"defaults to {c17_fields.show_canon(have_c)}"))
+                    if graphql.is_enum_type(graphql.get_named_type(f.type)) and c17_fields.null_elements_dropped(want_c, have_c):
+                        # the null elements of a list-of-enum default are gone and nothing else differs; the other members are still checked
+                        fail("input_default", observed, field_type=str(f.type), default_class=c17_fields.value_class(want_c),
+                             trigger="null_elements_dropped_from_enum_list_default")
+                        continue
+                    return fail("input_default", observed, field_type=str(f.type), default_class=c17_fields.value_class(want_c))
             want = expected(f.type, True)
             have = denote(hints[fname])
             if want[0] == "any":  # what force-optional does to the nullability of a `!` field is not C17's business
@@ -974,6 +1043,8 @@ def run(ck: Check) -> None:
         "type expressions are well-formed (no `!` directly on `!`): the SDL grammar and graphql-core both refuse the others (checked in the malformed stream)",
         "field names are prefixed f_ and enum values V_ so that member-name mangling (C07), keyword clashes and the type-name/field-name alias defect (C02) stay out of this property",
         "types named Query / Mutation are skipped by the generator by design (Gen/GraphqlTables.skippedTypeNames); documents name their root type differently",
+        "a non-null input field is required in the generated class whether or not the schema gives it a default (the property's statement: a non-null field is required); its default is then not observable on the member and is compared only under force-optional; conforming input objects supply every non-null field",
+        "default values are compared with graphql-core's coerced `default_value` (value_from_ast): type-strict (0, 0.0, False differ), a float by its repr, a dict regardless of key order, an Enum member as the value it stands for; TypedDict output has no defaults; msgspec output is not executable here",
         "a JSON object conforming to an object type supplies every field (nullable ones possibly null); input objects may leave nullable fields out; values of a custom scalar are values of its configured Python type",
         "the pydantic-v1-style output is executed on pydantic.v1 of pydantic 2.13; msgspec output is not executable here and is not part of this oracle",
         "ordering model: the named types are taken in the order of the generator's own build_graphql_schema(sdl).type_map (graphql-core's lexicographic sort is a parameter); MAX_RECURSION_COUNT of sort_data_models is not modelled (the schemas here need a handful of passes); one output module",
@@ -985,11 +1056,18 @@ def run(ck: Check) -> None:
     guard.campaign(ck, campaign_object_like, 120 if quick else 1000)
     ck.c17_obs = []
     me = sys.modules[__name__]
+    guard.campaign(ck, c17_fields.campaign_resolve, me, 150 if quick else 1500)
+    guard.campaign(ck, c17_fields.campaign_defaults, me, 14 if quick else 120, 30)
+    guard.campaign(ck, c17_fields.campaign_defaults_e2e, me, 30 if quick else 150)
+    guard.campaign(ck, c17_fields.campaign_defaults_static, me, 12 if quick else 120)
+    guard.campaign(ck, c17_fields.campaign_clash, me, 40 if quick else 200)
     guard.campaign(ck, c17_order.campaign_family, me, quick)
     guard.campaign(ck, c17_order.campaign_all_orders, me, quick)
     guard.campaign(ck, campaign_e2e, 150 if quick else 1200, 2)
     guard.campaign(ck, c17_order.campaign_order, me)
     ck.c17_obs = []
+    ck.search_hooks.append(lambda c: c17_fields.search_from_disagreements(c, me))
+    ck.search_hooks.append(lambda c: c17_fields.search_members(c, me))
     ck.search_hooks.append(lambda c: c17_order.search_order(c, me))
     ck.search_hooks.append(search_wrappers)
     ck.search_hooks.append(shrink_first_failure)
@@ -1002,7 +1080,9 @@ def replay(ck: Check, path: str) -> int:
     inp = data.get("input") or {}
     camp = ck.campaign("replay")
     ck.findings = []  # a replay shows the failure even when it is a recorded finding
-    if "sdl" in inp:
+    if inp.get("static"):
+        c17_fields.static_case(ck, camp, inp["sdl"], inp["model"], inp.get("flags", {}))
+    elif "sdl" in inp:
         oracle_case(ck, camp, inp["sdl"], inp["model"], inp.get("flags", {}), inp.get("scalar_map", {}), inp.get("seed", 1))
     for f in ck.failures:
         print("REPLAY-FAILS:", json.dumps(f.classification), f.observed[:300])
